@@ -2,7 +2,7 @@
 # usage: tools/take_seed.sh <property id> [round]  — confirms /tmp/seed-<id>-out/{A,B} (tools/confirm_seed.sh), copies them to
 # seeded/<id>-{A,B}, runs the property's check against each (tools/seed_meta.py) and removes the seeder's worktree.
 pid=$1; rnd=${2:-1}
-if [ "$rnd" = 1 ]; then wt=/tmp/seed-$pid; vs="A B"; else wt=/tmp/seed$rnd-$pid; case $rnd in 2) vs="C D";; 3) vs="E F";; 4) vs="G H";; esac; fi
+if [ "$rnd" = 1 ]; then wt=/tmp/seed-$pid; vs="A B"; else wt=/tmp/seed$rnd-$pid; case $rnd in 2) vs="C D";; 3) vs="E F";; 4) vs="G H";; 5) vs="I J";; esac; fi
 for v in $vs; do
   src=$wt-out/$v
   [ -f $src/patch.diff ] || { echo "no $src/patch.diff"; continue; }
